@@ -3,9 +3,10 @@ import Csverif.Model.Resolver
 C05 — conflict-resolution contract: both sides end up with the resolver's answer.
 Model: Model/Resolver.lean (answer handling of `__safe_call_resolver`, `resolve_conflict`,
 `__resolver_merge_upload`, `hash_conflict`, the same-hash shortcut of `handle_split_conflict`).
-One theorem per clause of the property; two clauses are FALSE of the pinned code and are kept as
-comments with a `_partial` version and kernel-checked witnesses (replayed on the real engine by
-harness/c05_resolver.py): merged data with keep=True, and falsy non-None answers.
+One theorem per clause of the property; one clause is FALSE of the code and is kept as a comment with
+kernel-checked witnesses (replayed on the real engine by harness/c05_resolver.py): merged data with
+keep=True.  (Falsy non-None answers used to be a second one; repaired in /repo by commit <SHA_A>, the
+full-strength `fallback_is_remote_wins_keep` is a theorem now.)
 -/
 namespace CS.Resolver
 set_option linter.unusedVariables false
@@ -95,7 +96,6 @@ theorem first_visit_calls_iff_differs (rf : Bool) (b : Behaviour α) (cl cr : α
     cases hs : (safeCall (fileLikes (sideStates rf cl cr)).1.side (fileLikes (sideStates rf cl cr)).1.otype
         (fileLikes (sideStates rf cl cr)).2.otype b).1 with
     | reraised => simp
-    | asIs => simp
     | pair fh keep =>
       simp only
       split <;> simp
@@ -137,75 +137,56 @@ theorem visit_handles (rf : Bool) (cl cr : α) :
 
 /-! ### normalisation of the answer -/
 
-/-- the answers the property calls "nothing, raises, or garbage" — minus the falsy ones (see below) -/
-def fallbackShape : Behaviour α → Bool
-  | .returns .none => true
-  | .raises => true
-  | .returns .truthyNonTuple => true
-  | .returns (.tuple n f k) => (n != 0 && n != 2) || (n == 2 && f == .notFile)
+/-- a well-formed answer: a 2-tuple whose first element is file-like (one of the handles, or new data) -/
+def wellFormed : Behaviour α → Bool
+  | .returns (.tuple n f k) => n == 2 && f != .notFile
   | _ => false
 
 /-- the REMOTE handle's position -/
 def remotePos (s0 : Side) : Bool := s0 != .rem
 
-/- FALSE as first stated (kept for the record): "if it returns nothing, raises, or returns garbage, the
-   remote version wins and the local one is kept" for EVERY non-(file-like, keep) answer:
-theorem fallback_is_remote_wins_keep' (s0 : Side) (b : Behaviour α) (h : ¬ wellFormed b ∧ b ≠ .raisesTemp) :
-    (safeCall s0 .file .file b).1 = .pair (.handle (remotePos s0)) true
-   A falsy non-None value (`0`, `False`, `()`, `""`, a bare handle of an EMPTY file, whose `__len__` is 0)
-   passes `if ret:` untested and `if ret is None` too. -/
-
-/-- None / raise / truthy garbage: `(remote handle, keep=True)`, whatever the handle order -/
-theorem fallback_is_remote_wins_keep_partial (s0 : Side) (b : Behaviour α) (h : fallbackShape b = true) :
+/-- "If it returns nothing, raises, or returns garbage, the remote version wins and the local one is kept":
+    EVERY answer that is not well-formed and not a CloudTemporaryError — None, any exception, any non-tuple
+    (falsy ones included: `0`, `False`, `""`, a bare handle of an empty file), tuples of any other length
+    (the empty tuple included), 2-tuples whose first element is not file-like — is normalised to
+    `(remote handle, keep=True)`, whatever the handle order. -/
+theorem fallback_is_remote_wins_keep (s0 : Side) (b : Behaviour α) (h : wellFormed b = false) (ht : b ≠ .raisesTemp) :
     safeCall s0 .file .file b = (.pair (.handle (remotePos s0)) true, true) := by
   have hf : (fallback s0 : SafeRes α) = .pair (.handle (remotePos s0)) true := by
     cases s0 <;> simp [fallback, remotePos]
   cases b with
   | raises => simp [safeCall, hf]
-  | raisesTemp => simp [fallbackShape] at h
+  | raisesTemp => exact absurd rfl ht
   | returns v =>
     cases v with
-    | none => simp [safeCall, validate, PyVal.truth, hf]
-    | falsy => simp [fallbackShape] at h
-    | truthyNonTuple => simp [safeCall, validate, PyVal.truth, hf]
+    | none => simp [safeCall, validate, hf]
+    | falsy => simp [safeCall, validate, hf]
+    | truthyNonTuple => simp [safeCall, validate, hf]
     | tuple n f k =>
-      simp only [fallbackShape, Bool.or_eq_true, Bool.and_eq_true, bne_iff_ne, ne_eq, beq_iff_eq] at h
-      rcases h with ⟨h0, h2⟩ | ⟨h2, hnf⟩
-      · simp [safeCall, validate, PyVal.truth, h0, h2, hf]
-      · subst h2; subst hnf
-        simp [safeCall, validate, PyVal.truth, hf]
+      by_cases h2 : n = 2
+      · subst h2
+        cases f with
+        | notFile => simp [safeCall, validate, hf]
+        | handle i => simp [wellFormed] at h
+        | data d => simp [wellFormed] at h
+      · simp [safeCall, validate, h2, hf]
 
-/-- witness: a falsy non-None answer is handed back unchanged (unpacking it then raises), for both
-    handle orders, and so is the empty tuple -/
-theorem falsy_answer_not_normalised :
-    safeCall (α := Nat) .rem .file .file (.returns .falsy) = (.asIs, true) ∧
-    safeCall (α := Nat) .loc .file .file (.returns .falsy) = (.asIs, true) ∧
-    safeCall (α := Nat) .rem .file .file (.returns (.tuple 0 .notFile false)) = (.asIs, true) := by
+/-- ... and a well-formed answer is passed through untouched -/
+theorem well_formed_passes (s0 : Side) (f : First α) (k : Bool) (hf : f ≠ .notFile) :
+    ∃ c, safeCall s0 .file .file (.returns (.tuple 2 f k)) = (.pair c k, true) ∧
+      (match f with | .handle i => c = .handle i | .data d => c = .data d | .notFile => False) := by
+  cases f with
+  | notFile => exact absurd rfl hf
+  | handle i => exact ⟨.handle i, by simp [safeCall, validate], rfl⟩
+  | data d => exact ⟨.data d, by simp [safeCall, validate], rfl⟩
+
+/-- the repaired finding `falsy-answer-never-resolved`, as instances: falsy values and the empty tuple fall back,
+    for both handle orders (kernel-checked; the real function is replayed on the same values on every run) -/
+theorem falsy_answer_falls_back :
+    safeCall (α := Nat) .rem .file .file (.returns .falsy) = (.pair (.handle false) true, true) ∧
+    safeCall (α := Nat) .loc .file .file (.returns .falsy) = (.pair (.handle true) true, true) ∧
+    safeCall (α := Nat) .rem .file .file (.returns (.tuple 0 .notFile false)) = (.pair (.handle false) true, true) := by
   decide
-
-/-- ... and the conflict is then offered to the resolver again and again: after n visits it is still
-    open, untouched, with n calls -/
-theorem falsy_answer_never_resolves (rf : Bool) (cl cr : α) (h : cl ≠ cr) (n : Nat) :
-    run rf (List.replicate n (.returns .falsy)) (initSt cl cr) = { initSt cl cr with calls := n } := by
-  have step : ∀ k, episode rf (.returns .falsy) ({ initSt cl cr with calls := k } : St α)
-      = { initSt cl cr with calls := k + 1 } := by
-    intro k
-    cases rf <;> simp [episode, initSt, h, safeCall, validate, PyVal.truth, fileLikes, sideStates]
-  have gen : ∀ n k, run rf (List.replicate n (.returns .falsy)) ({ initSt cl cr with calls := k } : St α)
-      = { initSt cl cr with calls := k + n } := by
-    intro n
-    induction n with
-    | zero => intro k; rfl
-    | succ m ih =>
-      intro k
-      simp only [run, List.replicate_succ, List.foldl_cons, step k]
-      have := ih (k + 1)
-      simp only [run] at this
-      rw [this]
-      congr 1
-      omega
-  have := gen n 0
-  simpa [initSt] using this
 
 /-- folder against file: the folder's handle with keep=True, and the application is NOT asked,
     whatever it would have answered -/
@@ -240,7 +221,7 @@ theorem pick_side_outcome (rf : Bool) (cl cr : α) (h : cl ≠ cr) (side : Side)
       st.pair.parked side = [] ∧
       st.pair.parked side.other = (if keep then [sideContent cl cr side.other] else []) := by
   cases rf <;> cases side <;> cases keep <;>
-    simp [outcome, run, episode, initSt, h, Answer.toBehaviour, safeCall, validate, PyVal.truth, fileLikes, sideStates,
+    simp [outcome, run, episode, initSt, h, Answer.toBehaviour, safeCall, validate, fileLikes, sideStates,
       resolveStep, replaceLoser, settle, Pair.set, Pair.get, Side.other, Chosen.bytes, Pair.content, Pair.parked, sideContent]
 
 /-- "if it returns new merged data with keep false both sides end with the merged data" -/
@@ -248,37 +229,35 @@ theorem merged_no_keep_outcome (rf : Bool) (cl cr m : α) (h : cl ≠ cr) :
     outcome rf cl cr 0 (.merged m false) =
       { pair := ⟨⟨some m, []⟩, ⟨some m, []⟩⟩, «open» := none, calls := 1, depth := 0 } := by
   cases rf <;>
-    simp [outcome, run, episode, initSt, h, Answer.toBehaviour, safeCall, validate, PyVal.truth, fileLikes, sideStates,
+    simp [outcome, run, episode, initSt, h, Answer.toBehaviour, safeCall, validate, fileLikes, sideStates,
       resolveStep, replaceLoser, settle, Pair.set, Pair.get, Side.other, Chosen.bytes]
 
-/-- the answers that fall back, indexed by side -/
+/-- the answers that fall back, indexed by side: everything but a pick, merged data (and a 2-tuple spelled as `wrongLen 2`) -/
 def Answer.isGarbage : Answer α → Bool
-  | .none | .raises | .nonTuple | .notFile _ => true
-  | .wrongLen n => n != 0 && n != 2
+  | .none | .raises | .falsy | .nonTuple | .notFile _ => true
+  | .wrongLen n => true
   | _ => false
 
 /-- "if it returns nothing, raises, or returns garbage, the remote version wins and the local one is
-    kept as '.conflicted'" (truthy garbage; for falsy garbage see `falsy_answer_never_resolves`) -/
-theorem fallback_outcome_partial (rf : Bool) (cl cr : α) (h : cl ≠ cr) (a : Answer α) (hg : a.isGarbage = true) :
+    kept as '.conflicted'": one call, settled, whatever the handle order -/
+theorem fallback_outcome (rf : Bool) (cl cr : α) (h : cl ≠ cr) (a : Answer α) (hg : a.isGarbage = true) :
     outcome rf cl cr 0 a =
       { pair := ⟨⟨some cr, [cl]⟩, ⟨some cr, []⟩⟩, «open» := none, calls := 1, depth := 0 } := by
-  have key : ∀ b : Behaviour α, fallbackShape b = true →
+  have key : ∀ b : Behaviour α, wellFormed b = false → b ≠ .raisesTemp →
       run rf [b] (initSt cl cr) = { pair := ⟨⟨some cr, [cl]⟩, ⟨some cr, []⟩⟩, «open» := none, calls := 1, depth := 0 } := by
-    intro b hb
+    intro b hb ht
     cases rf <;>
-      simp [run, episode, initSt, h, fileLikes, sideStates, fallback_is_remote_wins_keep_partial _ b hb, remotePos,
+      simp [run, episode, initSt, h, fileLikes, sideStates, fallback_is_remote_wins_keep _ b hb ht, remotePos,
         resolveStep, replaceLoser, settle, Pair.set, Pair.get, Side.other, Chosen.bytes]
   cases a with
   | pick s k => simp [Answer.isGarbage] at hg
   | merged d k => simp [Answer.isGarbage] at hg
-  | falsy => simp [Answer.isGarbage] at hg
-  | none => exact key _ rfl
-  | raises => exact key _ rfl
-  | nonTuple => exact key _ rfl
-  | notFile k => exact key _ (by simp [fallbackShape, Answer.toBehaviour])
-  | wrongLen n =>
-    simp only [Answer.isGarbage, Bool.and_eq_true, bne_iff_ne, ne_eq] at hg
-    exact key _ (by simp [fallbackShape, Answer.toBehaviour, hg.1, hg.2])
+  | falsy => exact key _ rfl (by simp [Answer.toBehaviour])
+  | none => exact key _ rfl (by simp [Answer.toBehaviour])
+  | raises => exact key _ rfl (by simp [Answer.toBehaviour])
+  | nonTuple => exact key _ rfl (by simp [Answer.toBehaviour])
+  | notFile k => exact key _ (by simp [wellFormed, Answer.toBehaviour]) (by simp [Answer.toBehaviour])
+  | wrongLen n => exact key _ (by simp [wellFormed, Answer.toBehaviour]) (by simp [Answer.toBehaviour])
 
 /-- the handle order the engine happens to use does not matter (for every answer, with retries) -/
 theorem outcome_order_independent (cl cr : α) (temp : Nat) (a : Answer α) :
@@ -314,30 +293,32 @@ theorem outcome_order_independent (cl cr : α) (temp : Nat) (a : Answer α) :
     cases a with
     | pick s k =>
       cases s <;> cases k <;>
-        simp [run, episode, initSt, h, Answer.toBehaviour, safeCall, validate, PyVal.truth, fileLikes, sideStates,
+        simp [run, episode, initSt, h, Answer.toBehaviour, safeCall, validate, fileLikes, sideStates,
           resolveStep, replaceLoser, settle, Pair.set, Pair.get, Side.other, Chosen.bytes]
     | merged d k =>
       cases k <;>
-        simp [run, episode, initSt, h, Answer.toBehaviour, safeCall, validate, PyVal.truth, fileLikes, sideStates,
+        simp [run, episode, initSt, h, Answer.toBehaviour, safeCall, validate, fileLikes, sideStates,
           resolveStep, replaceLoser, settle, Pair.set, Pair.get, Side.other, Chosen.bytes]
-    | none => simp [run, episode, initSt, h, Answer.toBehaviour, safeCall, validate, PyVal.truth, fileLikes, sideStates,
+    | none => simp [run, episode, initSt, h, Answer.toBehaviour, safeCall, validate, fileLikes, sideStates,
           resolveStep, replaceLoser, settle, Pair.set, Pair.get, Side.other, Chosen.bytes, fallback]
-    | raises => simp [run, episode, initSt, h, Answer.toBehaviour, safeCall, validate, PyVal.truth, fileLikes, sideStates,
+    | raises => simp [run, episode, initSt, h, Answer.toBehaviour, safeCall, validate, fileLikes, sideStates,
           resolveStep, replaceLoser, settle, Pair.set, Pair.get, Side.other, Chosen.bytes, fallback]
-    | falsy => simp [run, episode, initSt, h, Answer.toBehaviour, safeCall, validate, PyVal.truth, fileLikes, sideStates]
-    | nonTuple => simp [run, episode, initSt, h, Answer.toBehaviour, safeCall, validate, PyVal.truth, fileLikes, sideStates,
+    | falsy => simp [run, episode, initSt, h, Answer.toBehaviour, safeCall, validate, fileLikes, sideStates,
           resolveStep, replaceLoser, settle, Pair.set, Pair.get, Side.other, Chosen.bytes, fallback]
-    | notFile k => simp [run, episode, initSt, h, Answer.toBehaviour, safeCall, validate, PyVal.truth, fileLikes, sideStates,
+    | nonTuple => simp [run, episode, initSt, h, Answer.toBehaviour, safeCall, validate, fileLikes, sideStates,
+          resolveStep, replaceLoser, settle, Pair.set, Pair.get, Side.other, Chosen.bytes, fallback]
+    | notFile k => simp [run, episode, initSt, h, Answer.toBehaviour, safeCall, validate, fileLikes, sideStates,
           resolveStep, replaceLoser, settle, Pair.set, Pair.get, Side.other, Chosen.bytes, fallback]
     | wrongLen n =>
       by_cases h0 : n = 0
       · subst h0
-        simp [run, episode, initSt, h, Answer.toBehaviour, safeCall, validate, PyVal.truth, fileLikes, sideStates]
+        simp [run, episode, initSt, h, Answer.toBehaviour, safeCall, validate, fileLikes, sideStates,
+          resolveStep, replaceLoser, settle, Pair.set, Pair.get, Side.other, Chosen.bytes, fallback]
       · by_cases h2 : n = 2
         · subst h2
-          simp [run, episode, initSt, h, Answer.toBehaviour, safeCall, validate, PyVal.truth, fileLikes, sideStates,
+          simp [run, episode, initSt, h, Answer.toBehaviour, safeCall, validate, fileLikes, sideStates,
             resolveStep, replaceLoser, settle, Pair.set, Pair.get, Side.other, Chosen.bytes, fallback]
-        · simp [run, episode, initSt, h, h0, h2, Answer.toBehaviour, safeCall, validate, PyVal.truth, fileLikes, sideStates,
+        · simp [run, episode, initSt, h, h0, h2, Answer.toBehaviour, safeCall, validate, fileLikes, sideStates,
             resolveStep, replaceLoser, settle, Pair.set, Pair.get, Side.other, Chosen.bytes, fallback]
 
 /-- the call counter is a pure counter: shifting it commutes with a visit -/
@@ -355,7 +336,6 @@ theorem episode_calls_shift (rf : Bool) (b : Behaviour α) (st : St α) (k : Nat
       cases (safeCall (fileLikes (sideStates rf cl cr)).1.side (fileLikes (sideStates rf cl cr)).1.otype
           (fileLikes (sideStates rf cl cr)).2.otype b).1 with
       | reraised => simp; omega
-      | asIs => simp; omega
       | pair fh keep =>
         simp only
         split <;> simp <;> omega
@@ -412,7 +392,7 @@ theorem merged_keep_episode (rf : Bool) (cl cr m : α) (h : cl ≠ cr) (st : St 
   simp only at ho hl hr
   subst ho; subst hl; subst hr
   cases rf <;>
-    simp [episode, h, Answer.toBehaviour, safeCall, validate, PyVal.truth, fileLikes, sideStates,
+    simp [episode, h, Answer.toBehaviour, safeCall, validate, fileLikes, sideStates,
       resolveStep, replaceLoser, Pair.set, Pair.get, Side.other, Chosen.bytes]
 
 /-- after n visits: still open on the same two contents, n calls, n levels deep, and n parked copies on each side -/
